@@ -100,13 +100,27 @@ class Report:
         if ent is None:
             ent = self.classes[ck] = [0, what, None]
         ent[0] += 1
-        for e in self.findings:
-            if finding_matches(e, attrs, disc):
-                self.kf_hits[e["id"]] = self.kf_hits.get(e["id"], 0) + 1
-                if e["id"] not in self.kf_example:
-                    self.kf_example[e["id"]] = {"attrs": attrs, "disc": disc, "what": what}
-                ent[2] = e["id"]
-                return e["id"]
+        # covered iff every discrepancy is allowed by some open finding whose input pattern matches this case
+        matching = [e for e in self.findings if finding_matches(e, attrs, ())]
+        if matching:
+            left = set(disc)
+            used = []
+            for e in matching:
+                al = e.get("allowed_discrepancies")
+                if al is None or "*" in al:
+                    took = set(left)
+                else:
+                    took = left & set(al)
+                if took:
+                    used.append(e)
+                    left -= took
+            if not left and used:
+                for e in used:
+                    self.kf_hits[e["id"]] = self.kf_hits.get(e["id"], 0) + 1
+                    if e["id"] not in self.kf_example:
+                        self.kf_example[e["id"]] = {"attrs": attrs, "disc": disc, "what": what}
+                ent[2] = "+".join(e["id"] for e in used)
+                return used[0]["id"]
         self.n_unlisted += 1
         key = json.dumps([attrs.get("class", ""), disc, attrs.get("mnemonic", ""), attrs.get("form", "")])
         if key not in self.pending_keys or len(self.pending) < 40:
